@@ -1185,7 +1185,6 @@ func (c *Conn) writeRequest(ctx *Ctx) error {
 
 	h.SetPadding(false)
 	h.SetEndStream(!hasBody)
-	h.SetEndHeaders(true)
 
 	// store the ctx before sending the request
 	ctx.conn.Store(c)
@@ -1219,7 +1218,7 @@ func (c *Conn) writeRequest(ctx *Ctx) error {
 
 	c.bwLck.Lock()
 
-	_, err := fr.WriteTo(c.bw)
+	err := c.writeHeaderBlock(fr, h)
 	if err == nil {
 		err = c.bw.Flush()
 	}
@@ -1511,6 +1510,63 @@ func (c *Conn) closeBodyStream(pb *pendingBody) {
 	pb.stream = nil
 
 	_ = pb.ctx.Request.CloseBodyStream()
+}
+
+// writeHeaderBlock writes the header block in h, which is the body of fr. A
+// block larger than the server is willing to receive in one frame goes out as
+// a HEADERS frame followed by CONTINUATION frames, the last of which carries
+// END_HEADERS. The caller holds bwLck, which is what keeps other frames out
+// from between them (RFC 7540 6.10).
+func (c *Conn) writeHeaderBlock(fr *FrameHeader, h *Headers) error {
+	step := int(atomic.LoadUint32(&c.maxFrameSize))
+	if step <= 0 || step > int(maxFrameSize) {
+		step = int(defaultDataFrameSize)
+	}
+
+	block := h.Headers()
+	if len(block) <= step {
+		h.SetEndHeaders(true)
+
+		_, err := fr.WriteTo(c.bw)
+
+		return err
+	}
+
+	rest := append([]byte(nil), block[step:]...)
+
+	h.SetHeaders(block[:step])
+	h.SetEndHeaders(false)
+
+	if _, err := fr.WriteTo(c.bw); err != nil {
+		return err
+	}
+
+	cfr := AcquireFrameHeader()
+	defer ReleaseFrameHeader(cfr)
+
+	cfr.SetStream(fr.Stream())
+
+	cont := AcquireFrame(FrameContinuation).(*Continuation)
+	cfr.SetBody(cont)
+
+	for len(rest) > 0 {
+		n := len(rest)
+		if n > step {
+			n = step
+		}
+
+		cont.SetHeader(rest[:n])
+
+		rest = rest[n:]
+
+		cont.SetEndHeaders(len(rest) == 0)
+
+		if _, err := cfr.WriteTo(c.bw); err != nil {
+			return err
+		}
+	}
+
+	return nil
 }
 
 // writeData splits body into DATA frames no larger than the server is willing
